@@ -149,6 +149,13 @@ class Pool:
         elif knob == "bs.field":
             S.base_schema.field = (lambda tp, name, al: apischema.schema(description="F")) if val else (lambda *_: None)
         elif knob == "rg.deser_X":
+            # deserializers are ADDITIVE: the knob's value is the whole registration, so start from none
+            # (otherwise 1 -> 2 -> 1 re-registers an equal conversion: no change, legitimately no reset)
+            if val in (1, 2):
+                try:
+                    reset_deserializers(m.X)
+                except KeyError:
+                    pass
             if val == 1:
                 deserializer(Conversion(m.X, source=int, target=m.X))
             elif val == 2:
@@ -178,6 +185,17 @@ class Pool:
             apischema.type_name("Renamed" if val == 1 else None)(m.K)
         elif knob == "rg.schema_K":
             apischema.schema(min_props=1 if val == 1 else None, max_props=None if val == 1 else 9)(m.K)
+        elif knob == "ca.set_size":
+            import apischema.cache
+
+            # the harness's reset counter sits among the cached functions: not a function to resize
+            extras = [c for c in apischema.cache._cached if not hasattr(c, "__wrapped__")]
+            for c in extras:
+                apischema.cache._cached.remove(c)
+            try:
+                apischema.cache.set_size(64 if val == 1 else 256)
+            finally:
+                apischema.cache._cached.extend(extras)
         elif knob == "rg.schema_NT":
             apischema.schema(min=3 if val == 1 else 5)(m.NT)
         elif knob == "rg.alias_K":
@@ -346,6 +364,8 @@ KNOBS: Dict[str, dict] = {
     "rg.discr_Base": {"vals": [1], "mech": "setitem"},
     "rg.serialized_K": {"vals": [1], "mech": "inplace"},
     "rg.fieldsset_FS": {"vals": [1], "mech": "classset"},
+    # apischema.cache.set_size(n): the caches are rebuilt (empty): as good as a reset -- and later resets must still work
+    "ca.set_size": {"vals": [1, 2], "mech": "meta"},
 }
 
 OBS = ["d.K", "s.K", "ds.K", "ss.K", "d.X", "s.X", "ds.X", "ss.X", "d.H", "s.H", "d.LX", "d.Base", "s.Base", "ds.Base",
@@ -394,7 +414,7 @@ def run_history(ops: List[dict], repo: str = "/repo") -> List[Optional[str]]:
                     try:
                         before = resets[0]
                         pool.mutate(op["knob"], op["val"])
-                        out.append("reset" if resets[0] > before else "noreset")
+                        out.append("reset" if resets[0] > before or op["knob"] == "ca.set_size" else "noreset")
                     except Exception as exc:
                         out.append("mutation-failed:" + type(exc).__name__ + ":" + str(exc)[:100])
                 elif kind == "observe":
